@@ -5,6 +5,7 @@
 package pubsub
 
 //@ spec fn mcRep(mc *MessageCache) bool = mc.msgs != nil && mc.peertx != nil && len(mc.history) >= 1 && 0 <= mc.gossip && mc.gossip <= len(mc.history) &&
+//@      (forall m string :: m in mc.msgs ==> mc.msgs[m] != nil) &&
 //@      (forall m string :: m in mc.peertx ==> mc.peertx[m] != nil && allocated(mc.peertx[m])) &&
 //@      (forall m1 string, m2 string :: m1 in mc.peertx && m2 in mc.peertx && m1 != m2 ==> mc.peertx[m1] != mc.peertx[m2])
 
